@@ -78,12 +78,19 @@ theorem render_ne_nil_of {ncols : Nat} (hnc : 0 < ncols) (ls : List (List Cell))
 
 /-! ### the regrowth measure -/
 
-/-- number of doublings after which `b` exceeds `t` -/
-def need (b t : Nat) : Nat := if 0 < b ∧ b ≤ t then need (2 * b) t + 1 else 0
-termination_by t + 1 - b
-decreasing_by omega
+/-- the regrowth factor of the driver (`larger_factor`, regenerated from the source) is at least 2 -/
+theorem larger_factor_ge : 2 ≤ Gen.Csv.LARGER_FACTOR := by decide
 
-theorem need_double {b t : Nat} (h0 : 0 < b) (h : b ≤ t) : need (2 * b) t + 1 = need b t := by
+theorem grow_gt {b : Nat} (h : 0 < b) : 2 * b ≤ Gen.Csv.LARGER_FACTOR * b := Nat.mul_le_mul_right b larger_factor_ge
+
+/-- number of regrowths (multiplications by `larger_factor`) after which `b` exceeds `t` -/
+def need (b t : Nat) : Nat := if 0 < b ∧ b ≤ t then need (Gen.Csv.LARGER_FACTOR * b) t + 1 else 0
+termination_by t + 1 - b
+decreasing_by
+  have := grow_gt (b := b) (by omega)
+  omega
+
+theorem need_double {b t : Nat} (h0 : 0 < b) (h : b ≤ t) : need (Gen.Csv.LARGER_FACTOR * b) t + 1 = need b t := by
   rw [need.eq_1 b t]; simp [h0, h]
 
 theorem need_le (t : Nat) : ∀ (n b : Nat), t + 1 - b ≤ n → 0 < b → need b t ≤ t + 1 - b := by
@@ -99,7 +106,8 @@ theorem need_le (t : Nat) : ∀ (n b : Nat), t + 1 - b ≤ n → 0 < b → need 
     rw [need.eq_1]
     by_cases h : 0 < b ∧ b ≤ t
     · simp only [h, and_self, if_true]
-      have := ih (2 * b) (by omega) (by omega)
+      have hg := grow_gt hb
+      have := ih (Gen.Csv.LARGER_FACTOR * b) (by omega) (by omega)
       omega
     · simp [h]
 
